@@ -182,12 +182,12 @@ def answer (kind : String) (tyo : Option Nat) (defs : List Def) (pats : List SPa
     -- main_checker.rs:940-946: useless (irrefutable) iff a wildcard is not useful after the pattern
     match isAdditionalPatternUseful cx aps .wild with
     | none => "fuel"
-    | some u => s!"nonexh=- useless={b (!u)} err={b err} panic={b pan} typed={b typed} inh={b inh} mono={b mono} hyp={b hyp} swf={b wf} abs={absS} scope={scopeS}"
+    | some u => s!"nonexh=- useless={b (!u)} err={b err} panic={b pan} typed={b typed} inh={b inh} mono={b mono} hyp={b hyp} swf={b wf} shape={b (pats.all shape)} abs={absS} scope={scopeS}"
   else
     match incompleteCounterexample cx aps with
     | none => "fuel"
-    | some none => s!"nonexh=- useless=0 err={b err} panic={b pan} typed={b typed} inh={b inh} mono={b mono} hyp={b hyp} swf={b wf} abs={absS} scope={scopeS}"
-    | some (some d) => s!"nonexh={(render d).replace " " "~"} useless=0 err={b err} panic={b pan} typed={b typed} inh={b inh} mono={b mono} hyp={b hyp} swf={b wf} abs={absS} scope={scopeS}"
+    | some none => s!"nonexh=- useless=0 err={b err} panic={b pan} typed={b typed} inh={b inh} mono={b mono} hyp={b hyp} swf={b wf} shape={b (pats.all shape)} abs={absS} scope={scopeS}"
+    | some (some d) => s!"nonexh={(render d).replace " " "~"} useless=0 err={b err} panic={b pan} typed={b typed} inh={b inh} mono={b mono} hyp={b hyp} swf={b wf} shape={b (pats.all shape)} abs={absS} scope={scopeS}"
 
 def step (_ : Unit) (line : String) : Unit × String :=
   match words line with
